@@ -1153,6 +1153,10 @@ func isTempOrLit(e ast.Expr) bool {
 	return false
 }
 
+// leftmostSkipPlain is set by expand for the helper at hand: the helper stores through nothing but its own local
+// variables and calls nothing of this module, so plain variable / field reads evaluated before its call commute with it.
+var leftmostSkipPlain bool
+
 func leftmost(root ast.Expr, target ast.Expr) bool {
 	e := root
 	for {
@@ -1209,11 +1213,21 @@ func leftmost(root ast.Expr, target ast.Expr) bool {
 				for k := 0; k+1 < len(x.Args) && isTempOrLit(x.Args[k]) && !containsNode(x.Args[k], target); k++ {
 					e = x.Args[k+1]
 				}
+				// append(list, h(..)...) with list a plain variable: reading the variable commutes with the call (a helper
+				// of this module cannot reach a local of its caller)
+				if _, plainList := ast.Unparen(x.Args[0]).(*ast.Ident); plainList && fun.Name == "append" && len(x.Args) == 2 && containsNode(x.Args[1], target) {
+					e = x.Args[1]
+				}
 			case *ast.SelectorExpr:
 				if containsNode(fun.X, target) {
 					e = fun.X
 				} else if isPlainOperand(fun.X) && len(x.Args) > 0 {
 					e = x.Args[0]
+					// arguments evaluated before the helper's call that are plain reads (c.logger) commute with a helper that
+					// stores nothing outside its own locals
+					for k := 0; leftmostSkipPlain && k+1 < len(x.Args) && (isTempOrLit(x.Args[k]) || isPlainOperand(x.Args[k])) && !containsNode(x.Args[k], target); k++ {
+						e = x.Args[k+1]
+					}
 				} else {
 					return false
 				}
@@ -1288,6 +1302,87 @@ func constantValue(info *types.Info, e ast.Expr) bool {
 	return true
 }
 
+// storeFree: the function assigns only to identifiers (its locals, parameters and results), sends nothing, starts
+// nothing, and calls only builtins, conversions and functions outside this module (which cannot reach the module's
+// variables): whatever its caller read before calling it reads the same after.
+func storeFree(p *Prog, f *Fn) bool {
+	if f == nil || f.Body == nil {
+		return false
+	}
+	mod := Module
+	ok := true
+	info := f.Info()
+	// an identifier, or a field (of a field ..) of a struct-valued variable declared in this body
+	ownStorage := func(l ast.Expr) bool {
+		e := ast.Unparen(l)
+		if _, isId := e.(*ast.Ident); isId {
+			return true
+		}
+		for {
+			se, isSel := e.(*ast.SelectorExpr)
+			if !isSel {
+				break
+			}
+			if sel := info.Selections[se]; sel == nil || sel.Kind() != types.FieldVal || sel.Indirect() {
+				return false
+			}
+			e = ast.Unparen(se.X)
+		}
+		id, isId := e.(*ast.Ident)
+		if !isId {
+			return false
+		}
+		v, isVar := info.Uses[id].(*types.Var)
+		if !isVar || v.IsField() || v.Pos() < f.Body.Pos() || v.Pos() > f.Body.End() {
+			return false
+		}
+		_, isStruct := v.Type().Underlying().(*types.Struct)
+		return isStruct
+	}
+	ast.Inspect(f.Body, func(n ast.Node) bool {
+		switch x := n.(type) {
+		case *ast.AssignStmt:
+			for _, l := range x.Lhs {
+				if !ownStorage(l) {
+					ok = false
+				}
+			}
+		case *ast.IncDecStmt:
+			if !ownStorage(x.X) {
+				ok = false
+			}
+		case *ast.SendStmt, *ast.GoStmt, *ast.DeferStmt:
+			ok = false
+		case *ast.CallExpr:
+			if tv, has := info.Types[x.Fun]; has && (tv.IsType() || tv.IsBuiltin()) {
+				if id, isId := ast.Unparen(x.Fun).(*ast.Ident); isId && (id.Name == "delete" || id.Name == "copy" || id.Name == "clear") {
+					ok = false
+				}
+				return true
+			}
+			fo, _ := typeutil.Callee(info, x).(*types.Func)
+			if fo == nil || fo.Pkg() == nil || fo.Pkg().Path() == mod || strings.HasPrefix(fo.Pkg().Path(), mod+"/") {
+				// a function of this module: only the listed pure ones and other store-free helpers of the same package
+				if fo != nil && fo != f.Obj {
+					if cf := p.FnOf(fo); cf != nil && cf != f && cf.Pkg == f.Pkg && storeFreeDepth < 3 {
+						storeFreeDepth++
+						sub := storeFree(p, cf)
+						storeFreeDepth--
+						if sub {
+							return true
+						}
+					}
+				}
+				ok = false
+			}
+		}
+		return ok
+	})
+	return ok
+}
+
+var storeFreeDepth int
+
 // expand builds the edits for one call site; a, b is the source range replaced.
 func (in *inliner) expand(s callSite) (eds []textEdit, a, b token.Pos, ok bool) {
 	p := in.p
@@ -1307,6 +1402,7 @@ func (in *inliner) expand(s callSite) (eds []textEdit, a, b token.Pos, ok bool) 
 	if stmt == nil {
 		return nil, 0, 0, false
 	}
+	leftmostSkipPlain = storeFree(p, s.callee)
 	b0 := &bodyBuilder{in: in, s: s, info: info}
 	if !b0.prepare() || !b0.typesOK() {
 		if os.Getenv("MLB_DEBUG_EXPAND") == s.callee.Name() {
@@ -2004,6 +2100,11 @@ func (b *bodyBuilder) prepare() bool {
 				}
 			}
 		}
+		if assigned[pv] && b.threaded(i, pv) {
+			// `a = h(.., a, ..)` where every exit of h returns that parameter: h works on a itself
+			b.subst[pv] = b.argText[i]
+			continue
+		}
 		if !assigned[pv] && b.substitutable(i, pv) {
 			t := b.argText[i]
 			if _, isId := ast.Unparen(b.args[i]).(*ast.Ident); !isId {
@@ -2065,6 +2166,104 @@ func mentionsName(text, name string) bool {
 
 func isIdentChar(c byte) bool {
 	return c == '_' || c >= '0' && c <= '9' || c >= 'a' && c <= 'z' || c >= 'A' && c <= 'Z' || c >= 0x80
+}
+
+// threaded: the call is the whole right-hand side of `a = h(.., a, ..)` (one result), argument i is that same local
+// variable a, and every return of h hands back parameter i itself; h never takes the parameter's address nor captures it
+// in a literal, and a is a plain local of the caller whose address is not taken there. The helper then updates a in
+// place: the parameter is the variable (`lbIPs = c.assignMissingFamily(.., lbIPs, ..)`, `sel = appendIf(sel, x)`).
+func (b *bodyBuilder) threaded(i int, pv *types.Var) bool {
+	p := b.in.p
+	as, ok := p.parents[b.s.call].(*ast.AssignStmt)
+	if !ok || as.Tok != token.ASSIGN || len(as.Lhs) != 1 || len(as.Rhs) != 1 || as.Rhs[0] != ast.Expr(b.s.call) {
+		return false
+	}
+	lhs, ok := as.Lhs[0].(*ast.Ident)
+	if !ok {
+		return false
+	}
+	arg, ok := ast.Unparen(b.args[i]).(*ast.Ident)
+	if !ok || b.argText[i] != arg.Name {
+		return false
+	}
+	// the caller's side (same package, same types.Info): both names denote one local variable
+	callerInfo := b.info
+	av, _ := callerInfo.Uses[arg].(*types.Var)
+	lv, _ := callerInfo.Uses[lhs].(*types.Var)
+	if av == nil || av != lv || av.IsField() || av.Pkg() == nil || av.Parent() == av.Pkg().Scope() || b.s.owner == nil {
+		return false
+	}
+	if !types.Identical(av.Type(), b.ptype(pv)) || b.sig.Results().Len() != 1 {
+		return false
+	}
+	okCaller := true
+	ast.Inspect(b.s.owner, func(n ast.Node) bool {
+		switch x := n.(type) {
+		case *ast.UnaryExpr:
+			if id, isId := ast.Unparen(x.X).(*ast.Ident); isId && x.Op == token.AND && callerInfo.Uses[id] == types.Object(av) {
+				okCaller = false
+			}
+		case *ast.FuncLit:
+			ast.Inspect(x, func(m ast.Node) bool {
+				if id, isId := m.(*ast.Ident); isId && callerInfo.Uses[id] == types.Object(av) {
+					okCaller = false
+				}
+				return okCaller
+			})
+			return false
+		}
+		return okCaller
+	})
+	if !okCaller {
+		return false
+	}
+	// the helper's side
+	if b.s.callee.Decl != nil && b.s.callee.Decl.Type.Results != nil {
+		for _, r := range b.s.callee.Decl.Type.Results.List {
+			if len(r.Names) > 0 {
+				return false
+			}
+		}
+	}
+	okCallee, nRet := true, 0
+	ast.Inspect(b.s.callee.Body, func(n ast.Node) bool {
+		switch x := n.(type) {
+		case *ast.FuncLit:
+			ast.Inspect(x, func(m ast.Node) bool {
+				if id, isId := m.(*ast.Ident); isId && b.info.Uses[id] == types.Object(pv) {
+					okCallee = false
+				}
+				return okCallee
+			})
+			return false
+		case *ast.UnaryExpr:
+			if id, isId := ast.Unparen(x.X).(*ast.Ident); isId && x.Op == token.AND && b.info.Uses[id] == types.Object(pv) {
+				okCallee = false
+			}
+		case *ast.ReturnStmt:
+			nRet++
+			if len(x.Results) != 1 {
+				okCallee = false
+			} else if id, isId := ast.Unparen(x.Results[0]).(*ast.Ident); !isId || b.info.Uses[id] != types.Object(pv) {
+				okCallee = false
+			}
+		}
+		return okCallee
+	})
+	// no other argument may mention a (it would be evaluated before the helper changes a; bound arguments are, but a
+	// substituted one would see the updates)
+	for j, a := range b.args {
+		if j == i {
+			continue
+		}
+		ast.Inspect(a, func(n ast.Node) bool {
+			if id, isId := n.(*ast.Ident); isId && callerInfo.Uses[id] == types.Object(av) {
+				okCallee = false
+			}
+			return okCallee
+		})
+	}
+	return okCallee && nRet > 0
 }
 
 func (b *bodyBuilder) assignedParams() map[*types.Var]bool {
